@@ -305,8 +305,13 @@ impl ProofGraph {
             if changed && !node.valid {
                 self.stats.invalidations += 1;
 
-                // Get dependents and propagate recursively
-                let further_deps = node.dependents.clone();
+                // Get dependents and propagate recursively. Use the global reverse index:
+                // node.dependents misses dependents inserted before this node existed.
+                let further_deps = self
+                    .dependencies
+                    .get(dependent_handle)
+                    .cloned()
+                    .unwrap_or_default();
                 for further_dep in further_deps {
                     self.propagate_invalidation(&further_dep, dependent_handle);
                 }
